@@ -1,6 +1,8 @@
 package main
 
 import (
+	"go/token"
+	"strconv"
 	"strings"
 
 	"golang.org/x/tools/go/ssa"
@@ -60,6 +62,8 @@ func runC14(p *Program, r *Result) {
 			}
 		}
 	}
+	checkLoops(p, r)
+	checkLimits(p, r)
 	for i, e := range table {
 		if !used[i] {
 			r.cur = "R14.2"
@@ -143,6 +147,43 @@ func checkRequires(p *Program, r *Result, e boundsEntry) string {
 			if _, ok := hasFactShort(tb.FactsAt(ret.Block()), parts[1]); !ok {
 				return "the success return of " + parts[0] + " is not dominated by `" + parts[1] + "`"
 			}
+		case "guardload":
+			// guardload:<function>|<callee>|<field>|<const>: the first call of callee is
+			// dominated by the branch len(recv.<field>) == const, with no write to the
+			// field between the tested load and the call
+			if len(parts) != 4 {
+				return "bad prerequisite " + req
+			}
+			c, err := nthCall(fn, parts[1])
+			if err != nil {
+				return err.Error()
+			}
+			okg := false
+			for _, g := range p.guardsAt(c.Block()) {
+				bo, ok := g.Cond.(*ssa.BinOp)
+				if !ok || bo.Op != token.EQL || !g.Pol {
+					continue
+				}
+				k, isK := constInt(bo.Y)
+				lc, isL := bo.X.(*ssa.Call)
+				if !isK || !isL || !isBuiltin(&lc.Call, "len") || strconv.FormatInt(k, 10) != parts[3] {
+					continue
+				}
+				ld, isLd := lc.Call.Args[0].(*ssa.UnOp)
+				if !isLd {
+					continue
+				}
+				fa, isFA := ld.X.(*ssa.FieldAddr)
+				if !isFA || fieldName(fa.X.Type(), fa.Field) != parts[2] || fa.X != fn.Params[0] {
+					continue
+				}
+				if !tb.fieldWrittenBetween(ld, c.(ssa.Instruction), fieldKey(fa)) {
+					okg = true
+				}
+			}
+			if !okg {
+				return "the call of " + parts[1] + " in " + parts[0] + " is not guarded by len(recv." + parts[2] + ") == " + parts[3]
+			}
 		case "asciiguard":
 			if len(parts) != 2 {
 				return "bad prerequisite " + req
@@ -159,4 +200,282 @@ func checkRequires(p *Program, r *Result, e boundsEntry) string {
 		}
 	}
 	return ""
+}
+
+// ---------------------------------------------------------------------------
+// R14.4 loops
+
+type natLoop struct {
+	Header *ssa.BasicBlock
+	Blocks map[*ssa.BasicBlock]bool
+}
+
+func naturalLoops(fn *ssa.Function) []*natLoop {
+	var out []*natLoop
+	byHeader := map[*ssa.BasicBlock]*natLoop{}
+	for _, b := range fn.Blocks {
+		for _, s := range b.Succs {
+			if s == b || s.Dominates(b) {
+				l := byHeader[s]
+				if l == nil {
+					l = &natLoop{Header: s, Blocks: map[*ssa.BasicBlock]bool{s: true}}
+					byHeader[s] = l
+					out = append(out, l)
+				}
+				work := []*ssa.BasicBlock{b}
+				for len(work) > 0 {
+					x := work[len(work)-1]
+					work = work[:len(work)-1]
+					if l.Blocks[x] {
+						continue
+					}
+					l.Blocks[x] = true
+					work = append(work, x.Preds...)
+				}
+			}
+		}
+	}
+	return out
+}
+
+// sourceReaders: calls that consume input and report its end as an error.
+var sourceReaders = map[string]bool{
+	"(*bufio.Reader).ReadBytes":  true,
+	"(*bufio.Reader).ReadString": true,
+	"(*bufio.Reader).Peek":       true,
+	"(*bufio.Scanner).Scan":      true,
+	"io.ReadFull":                true,
+	"(*" + pkgFormat + ".StanzaReader).ReadStanza": true,
+	"(*" + pkgPlugin + ".ClientUI).readStanza":     true,
+}
+
+func checkLoops(p *Program, r *Result) {
+	r.Rule("R14.4", "every loop is bounded by a counter/range or consumes input and leaves on a read error", 20)
+	for _, fn := range p.Funcs {
+		if !inPkg(fn, libPkgs...) {
+			continue
+		}
+		tb := p.TB(fn)
+		rls := rangeLoops(fn)
+		for i, l := range naturalLoops(fn) {
+			key := "loop#" + itoa(i)
+			pos := r.pos(l.Header.Instrs[len(l.Header.Instrs)-1])
+			// (a) range / index loops
+			bounded := false
+			for _, rl := range rls {
+				if rl.Header == l.Header {
+					bounded = true
+				}
+			}
+			// (b) monotone counter compared with a constant or a length in the header
+			if !bounded {
+				if ifi, ok := l.Header.Instrs[len(l.Header.Instrs)-1].(*ssa.If); ok {
+					if cmp, ok := ifi.Cond.(*ssa.BinOp); ok {
+						for _, side := range []ssa.Value{cmp.X, cmp.Y} {
+							if ph, ok := side.(*ssa.Phi); ok && ph.Block() == l.Header && monotone(ph) {
+								bounded = true
+							}
+						}
+					}
+				}
+			}
+			if bounded {
+				r.OK(fn.String(), key, pos, "bounded: range/index loop or monotone counter against a fixed bound")
+				continue
+			}
+			// (c) input loops: a source read inside whose error edge leaves the loop
+			consumes := false
+			for b := range l.Blocks {
+				for _, in := range b.Instrs {
+					c, ok := in.(*ssa.Call)
+					if !ok {
+						continue
+					}
+					name := tb.resolvedCalleeName(&c.Call)
+					isReader := sourceReaders[name]
+					if !isReader {
+						// closures of this function that read (armor getLine)
+						if callee := staticCallee(&c.Call); callee != nil && callee.Parent() == fn {
+							for _, cc := range callsIn(callee) {
+								if sourceReaders[p.TB(callee).resolvedCalleeName(cc.Common())] {
+									isReader = true
+								}
+							}
+						}
+						if name == "dynamic" {
+							if t := tb.Term(c.Call.Value); t.Op == "Closure" {
+								for _, a := range AnonFuncs(fn) {
+									if a.String() == t.S {
+										for _, cc := range callsIn(a) {
+											if sourceReaders[p.TB(a).resolvedCalleeName(cc.Common())] {
+												isReader = true
+											}
+										}
+									}
+								}
+							}
+						}
+					}
+					if !isReader {
+						continue
+					}
+					// error (or false for Scan) edge must leave the loop
+					if name == "(*bufio.Scanner).Scan" {
+						consumes = true
+						continue
+					}
+					for _, blk := range fn.Blocks {
+						for k := range blk.Succs {
+							if _, isIf := blk.Instrs[len(blk.Instrs)-1].(*ssa.If); !isIf {
+								continue
+							}
+							fe := tb.FactsOnEdge(blk, k)
+							last := fe[len(fe)-1]
+							if last.Kind == "cmp" && last.Op == "!=" && last.Y.Op == "Nil" && (last.X.V == ssa.Value(c) || (last.X.Op == "Ext" && last.X.Args[0].V == ssa.Value(c))) {
+								vis := p.Reach([]Loc{blockStart(blk.Succs[k])}, nil)
+								if !vis[l.Header.Instrs[0]] {
+									consumes = true
+								}
+							}
+						}
+					}
+				}
+			}
+			if consumes {
+				r.OK(fn.String(), key, pos, "consumes input on every iteration; a read error leaves the loop")
+				continue
+			}
+			// (d) table
+			if reason, ok := loopTable[fn.String()]; ok {
+				r.OK(fn.String(), key, pos, "table: "+reason, Witness{Kind: "table", Text: reason})
+				continue
+			}
+			r.Bad(fn.String(), key, pos, "loop with no bounded counter that does not consume input with an exit on read error: hostile input (or a source that keeps failing) could keep it spinning")
+		}
+	}
+}
+
+// loopTable: progress loops whose termination is a value argument.
+var loopTable = map[string]string{
+	"(*" + pkgStream + ".Writer).Write":                 "each iteration copies n >= 1 bytes of the caller's p unless the buffer is full, in which case it is flushed (emptied) first; p shrinks to empty",
+	"(*" + pkgFormat + ".WrappedBase64Encoder).writeWrapped": "each iteration writes toWrite >= 1 bytes of p to a bytes.Buffer (which accepts everything); p shrinks to empty",
+	pkgBech32 + ".convertBits":                          "inner loop: bits decreases by tobits > 0 until bits < tobits",
+}
+
+func monotone(ph *ssa.Phi) bool {
+	dir := 0
+	nConst := 0
+	for _, e := range ph.Edges {
+		if _, ok := constInt(e); ok {
+			nConst++
+			continue
+		}
+		if c, ok := e.(*ssa.Call); ok && isBuiltin(&c.Call, "len") {
+			nConst++
+			continue
+		}
+		bo, ok := e.(*ssa.BinOp)
+		if !ok || bo.X != ssa.Value(ph) {
+			return false
+		}
+		k, isK := constInt(bo.Y)
+		if !isK || k <= 0 {
+			return false
+		}
+		d := 0
+		switch bo.Op {
+		case token.ADD:
+			d = 1
+		case token.SUB:
+			d = -1
+		default:
+			return false
+		}
+		if dir != 0 && dir != d {
+			return false
+		}
+		dir = d
+	}
+	return nConst > 0 && dir != 0
+}
+
+// ---------------------------------------------------------------------------
+// R14.5 limits and callee preconditions
+
+func checkLimits(p *Program, r *Result) {
+	r.Rule("R14.5", "size limits and decoder preconditions are on the path", 5)
+	// key-file readers are size-limited
+	for _, s := range []Site{
+		{Key: "ParseIdentities.scanner", Pkg: pkgAge, Func: "ParseIdentities", What: "arg:bufio.NewScanner:0"},
+		{Key: "ParseRecipients.scanner", Pkg: pkgAge, Func: "ParseRecipients", What: "arg:bufio.NewScanner:0"},
+	} {
+		got, pos, _, err := p.Extract(s)
+		sub := pkgAge + "." + s.Func
+		if err != nil {
+			r.Unk(sub, "limit:"+s.Key, "", err.Error())
+			continue
+		}
+		ok := strings.Contains(got, "Limit") && strings.Contains(got, "16777216")
+		r.Check(ok, sub, "limit:"+s.Key, pos, got, "the key file is scanned without the 16 MiB limit: "+got)
+	}
+	// armor: leading whitespace bounded, trailing drain bounded
+	if rd := r.anchor(pkgArmor, "armoredReader", "Read"); rd != nil {
+		tb := p.TB(rd)
+		maxWS, ok := p.LocalConst(pkgArmor, rd, "maxWhitespace")
+		r.Check(ok && maxWS == "1024", rd.String(), "limit:maxWhitespace", "", "maxWhitespace = 1024", "armor whitespace bound missing or changed: "+maxWS)
+		// the blank-line continue is under removedWhitespace <= max
+		okLead := false
+		for _, l := range naturalLoops(rd) {
+			for _, pr := range l.Header.Preds {
+				if !l.Blocks[pr] || pr == l.Header {
+					continue
+				}
+				facts := tb.FactsAt(pr)
+				for k, s := range pr.Succs {
+					if s == l.Header {
+						if _, isIf := pr.Instrs[len(pr.Instrs)-1].(*ssa.If); isIf {
+							facts = tb.FactsOnEdge(pr, k)
+						}
+					}
+				}
+				if _, f := findFact(facts, func(a Atom) bool {
+					return a.Kind == "cmp" && a.Op == "<=" && a.Y.S == maxWS && strings.Contains(a.X.String(), "removedWhitespace")
+				}); f {
+					okLead = true
+				}
+			}
+		}
+		r.Check(okLead, rd.String(), "limit:leading", "", "blank lines are skipped only while the running total is <= maxWhitespace", "the leading-whitespace loop continues without the bound: unbounded blank input would be read forever")
+		// trailing: ReadAll of a LimitReader
+		okTrail := false
+		for _, a := range AnonFuncs(rd) {
+			atb := p.TB(a)
+			for _, c := range callsTo(a, "io.ReadAll") {
+				t := short(atb.Term(c.Common().Args[0]).String())
+				if strings.HasPrefix(t, "io.LimitReader(") && strings.HasSuffix(t, ", "+maxWS+")") {
+					okTrail = true
+				}
+			}
+		}
+		r.Check(okTrail, rd.String(), "limit:trailing", "", "trailing data read through io.LimitReader(·, maxWhitespace)", "trailing data is read without a bound")
+		// base64 Decode precondition: len(dst) >= DecodedLen(len(src))
+		okDec := false
+		pos := ""
+		for _, c := range callsTo(rd, "(*encoding/base64.Encoding).Decode") {
+			pos = r.pos(c)
+			dst := c.Common().Args[1]
+			src := c.Common().Args[2]
+			s := tb.system(c.(ssa.Instruction))
+			ds, dc, _ := tb.lenSym(dst)
+			ss, sc, _ := tb.lenSym(src)
+			// find the largest K with len(src) <= K implied, try the column constant
+			cols, _ := p.ConstValue(pkgFormat, "ColumnsPerLine")
+			k, _ := strconv.ParseInt(cols, 10, 64)
+			need := k / 4 * 3
+			if s.implied(ss, "0", k-sc) && s.implied("0", ds, dc-need) {
+				okDec = true
+			}
+		}
+		r.Check(okDec, rd.String(), "precondition:base64.Decode", pos, "len(line) <= ColumnsPerLine and the destination holds DecodedLen(ColumnsPerLine) bytes", "base64 Decode may be called with a destination shorter than DecodedLen(len(line)): it panics on an over-long armored line")
+	}
 }
